@@ -128,7 +128,7 @@ fn run(ctx: &mut Ctx) {
         ctx.count("exhaustive.programs");
     });
     // phase 1: pairs and multi-step windows
-    let npairs = ctx.tier.pick(6_000, 0);
+    let npairs = ctx.tier.pick_exact(36_000, 0);
     ctx.cases(1, combos.len() as u64, |ctx, rng, c| {
         let (ii, which) = combos[c as usize];
         let input = &inputs[ii];
@@ -162,7 +162,7 @@ fn run(ctx: &mut Ctx) {
         if ctx.want_sample() && input.len() < 8 { ctx.sample(Json::obj().set("program", p.text.as_str()).set("input", format!("{input:?}")).set("schedule", format!("random holds, density 1/{density}")).set("display", format!("{:?}", String::from_utf8_lossy(&o.display))).set("steps_with_lock_held", o.held_steps)); }
     });
     // phase 3: a real contending thread
-    let n = ctx.tier.pick(40, 3_000);
+    let n = ctx.tier.pick_exact(60, 3_000);
     ctx.cases(3, n, |ctx, rng, idx| {
         let input: Vec<u8> = (0..8 + rng.usize(24)).map(|_| 1 + rng.below(255) as u8).collect();
         let p = programs(&input, idx);
@@ -191,7 +191,7 @@ fn run(ctx: &mut Ctx) {
         ctx.count_n("threaded.lock-grabs", grabs);
     });
     // phase 4: devices driven directly with a contending thread (this is what runs under Miri and TSan)
-    let n = ctx.tier.pick(20, 400);
+    let n = ctx.tier.pick_exact(40, 400);
     ctx.cases(4, n, |ctx, rng, _| { device_level(ctx, rng, 400); });
 }
 
